@@ -80,7 +80,7 @@ PROPS = {
                 "random / mutated / raw inputs through both entry points, the bare AVP list reader and the per-type "
                 "readers, in a dev build (overflow checks, debug assertions) and a release build, under catch_unwind "
                 "with abort detection and a watchdog; distinct = distinct (operation, input, options) cases",
-        "assumptions": COMMON_ASSUMPTIONS + ["random inputs up to ~2 KiB; targeted inputs up to 131 KiB (16-bit sums near 65 535 with the octets really present)", "per-case watchdog 20 s (quick) / 60 s (thorough)"],
+        "assumptions": COMMON_ASSUMPTIONS + ["random inputs up to ~2 KiB; targeted inputs up to 131 KiB (16-bit sums near 65 535 with the octets really present)", "per-case watchdog 10 s (quick) / 30 s (thorough) without progress; after three hangs the remaining cases are not run"],
     },
     "C02": {
         "mc": DEC_MODELS + ["hid_reveal", "len_tlc", "len_base", "len_step"], "gen": ["decode_readers", "avps_readers", "payload_readers", "reveal"], "readers": "all",
